@@ -282,20 +282,26 @@ def toml_section_eval(ctx, rule: str) -> None:
         ("[tool.bumpver] and [bumpver]", {"tool": {"bumpver": dict(sec, current_version="2.0.0")}, "bumpver": dict(sec)}, dict(sec, current_version="2.0.0")),
     ]
     bools = prog.const("config", "BOOL_OPTIONS")
+
+    def defaults(f: T.Any, node: ast.Call) -> None:
+        """_set_raw_config_defaults, abstracted: the keys it guarantees exist afterwards."""
+        d = f(node.args[0])
+        if isinstance(d, dict):
+            d.setdefault("file_patterns", {})
     wrong: T.List[str] = []
     n = 0
     try:
         for name, doc, want in docs:
             import copy
             env = {fn.params[0]: "BUFFER", "__strict__": True,
-                   "__stubs__": {"toml.load": lambda f, node, doc=doc: copy.deepcopy(doc), "_set_raw_config_defaults": lambda f, node: None, "_check_and_default_raw_cfg": lambda f, node: None}}
+                   "__stubs__": {"toml.load": lambda f, node, doc=doc: copy.deepcopy(doc), "_set_raw_config_defaults": defaults}}
             try:
                 got, _ys = prog.run_body(fn, env)
             except EvalError as ex:
                 got = f"raises: {ex}"
             n += 1
             if isinstance(got, dict):
-                core = {k: v for k, v in got.items() if k not in bools}
+                core = {k: v for k, v in got.items() if k not in bools and k != "file_patterns"}
                 if core != want:
                     wrong.append(f"{name}: section {core}, expected {want}")
             else:
